@@ -14,6 +14,7 @@ import (
 	"os"
 	"strconv"
 	"strings"
+	"syscall"
 	"time"
 )
 
@@ -96,6 +97,15 @@ func (c *Ctx) Deviations() int {
 	return d
 }
 
+// RealNow is the wall clock even inside a testing/synctest bubble (where time.Now is virtual).
+func RealNow() time.Time {
+	var tv syscall.Timeval
+	if err := syscall.Gettimeofday(&tv); err != nil {
+		return time.Now()
+	}
+	return time.Unix(tv.Sec, int64(tv.Usec)*1000)
+}
+
 type Options struct {
 	Bound      int       // max deviations per execution (<0: unlimited)
 	Shard      int       // this worker
@@ -147,7 +157,7 @@ func Explore(opt Options, body func(c *Ctx) bool) Stats {
 	var prefix []int
 	var expect []point
 	for {
-		if !opt.Deadline.IsZero() && time.Now().After(opt.Deadline) {
+		if !opt.Deadline.IsZero() && RealNow().After(opt.Deadline) {
 			st.Capped, st.CapReason = true, "deadline"
 			return st
 		}
